@@ -544,9 +544,10 @@ class Runner(object):
         # attribute of the raw value
         ok = {
             "lower": {"str"}, "upper": {"str"}, "strip": {"str"}, "startswith": {"str"}, "endswith": {"str"}, "split": {"str"}, "format": {"str"}, "encode": {"str"}, "isdigit": {"str"},
+            "is_integer": {"float", "int", "bool"}, "real": NUMERIC, "imag": NUMERIC, "bit_length": {"int", "bool"}, "as_integer_ratio": NUMERIC,
             "join": {"str"}, "replace": {"str"}, "lstrip": {"str"}, "rstrip": {"str"}, "title": {"str"}, "capitalize": {"str"}, "casefold": {"str"},
             "items": DICTS, "keys": DICTS, "values": DICTS, "get": DICTS,
-            "result": {"command"}, "result_name": {"command"}, "is_finished": {"command"}, "is_fuzzy": {"command"}, "output": {"command"}, "name": {"command", "argument"},
+            "result": {"command"}, "result_name": {"command"}, "is_finished": {"command"}, "is_running": {"command"}, "is_fuzzy": {"command"}, "output": {"command"}, "name": {"command", "argument"},
             "value": {"argument"}, "lineno": {"command", "argument"}, "__class__": None, "dtype": {"ndarray"}, "shape": {"ndarray"},
         }.get(a, "?")
         if ok == "?":
@@ -558,6 +559,10 @@ class Runner(object):
         if a == "result":
             self.notes.append("touch-result")
             return V({"ndarray", "any"}, tag="result", derived=True)
+        if a in ("is_integer", "bit_length", "as_integer_ratio"):
+            return V({"method"}, tag=a, derived=b.derived)
+        if a in ("real", "imag"):
+            return V(b.kinds)
         if a in ("items", "keys", "values", "get", "lower", "upper", "strip", "startswith", "endswith", "split", "format", "encode", "isdigit", "join", "replace", "lstrip", "rstrip", "title", "capitalize", "casefold"):
             return V({"method"}, tag=("items-of-empty" if b.kinds <= EMPTY and a == "items" else a), derived=b.derived)
         if a == "is_finished":
@@ -657,8 +662,10 @@ class Runner(object):
     def method_call(self, recv, name, mv, A, e):
         if name in ("lower", "upper", "strip", "format", "join", "replace", "lstrip", "rstrip", "title", "capitalize", "casefold"):
             return V({"str"})
-        if name in ("startswith", "endswith", "isdigit"):
+        if name in ("startswith", "endswith", "isdigit", "is_integer"):
             return V({"bool"})
+        if name in ("bit_length",):
+            return V({"int"})
         if name == "split":
             return V({"list1"})
         if name == "items":
@@ -687,11 +694,15 @@ class Runner(object):
             k = a0.kinds if a0 is not None else frozenset()
             if a0 is None:
                 return V({short})
+            prov = "conv:%s:%s" % (short, "raw" if a0.ident else "derived")
             if k <= NUMERIC:
-                return V({short})
+                return V({short}, tag=prov)
             if k == {"str"}:
-                self.may_raise(["builtins.ValueError"], e)
-                return V({short})
+                c = self.choose(2)
+                if c > 0:
+                    self.notes.append("%s-failed" % short)
+                    self.raise_("builtins.ValueError", e)
+                return V({short}, tag=prov)
             if "any" in k:
                 self.may_raise(["builtins.ValueError", "builtins.TypeError"], e)
                 return V({short})
